@@ -296,7 +296,14 @@ def B(cond) -> bool:
     """fork on a z3 Bool (or pass through a Python bool)"""
     if isinstance(cond, bool):
         return cond
-    return eng().branch(cond)
+    if ENG is None:  # concrete replay mode: only constants can be decided
+        c = z3.simplify(cond)
+        if z3.is_true(c):
+            return True
+        if z3.is_false(c):
+            return False
+        raise RuntimeError("symbolic decision outside an engine: %s" % c)
+    return ENG.branch(cond)
 
 
 # ---------------------------------------------------------------------- proxies
